@@ -1,8 +1,13 @@
 //! Runtime-monitoring harness for scratchstack-aws-signature (see /verif/DESIGN.md).
 pub mod calib;
+pub mod diag;
 pub mod exec;
+pub mod gen;
 pub mod json;
 pub mod model;
+pub mod mon;
 pub mod prng;
+pub mod props;
 pub mod rm;
+pub mod run;
 pub mod sha;
